@@ -6,7 +6,9 @@
  *
  * Events (static storage):  R0 read on a readable pipe (fd 20), R1 read on an idle AF_UNIX
  * socket (fd 70), W0 write on a writable pipe end (fd 24), T0 5 ms persistent timer,
- * S0 SIGUSR1, EX = edge-triggered read on a readable pipe (fd 26, epoll only).
+ * S0 SIGUSR1, EX = edge-triggered read on a readable pipe (fd 26, epoll only),
+ * CL = EV_CLOSED on W0's descriptor (fd 24, epoll only; two events sharing one fd: the
+ * re-registration after the fork has to carry the union of both, i.e. EPOLLOUT and EPOLLRDHUP).
  *
  * One execution:
  *   pre-fork history (mc_choose, depth N) over: toggle each event, loop (one iteration),
@@ -32,11 +34,11 @@
  *   hygiene       the child frees everything (allocation count, fd table) */
 #include "backend_digest.h"
 
-enum { R0, R1, W0, T0, S0, EX, RF, NEVT };
-static const char *const ename[NEVT] = { "R0", "R1", "W0", "T0", "S0", "EX", "RF" };
-static const int efd[NEVT] = { 20, 70, 24, -1, SIGUSR1, 26, 30 };
-static const short eflags[NEVT] = { EV_READ | EV_PERSIST, EV_READ | EV_PERSIST, EV_WRITE | EV_PERSIST, EV_PERSIST, EV_SIGNAL | EV_PERSIST, EV_READ | EV_ET | EV_PERSIST, EV_READ | EV_PERSIST };
-#define NPRE 6                       /* events that can be toggled before the fork: R0..EX */
+enum { R0, R1, W0, T0, S0, EX, CL, RF, NEVT };
+static const char *const ename[NEVT] = { "R0", "R1", "W0", "T0", "S0", "EX", "CL", "RF" };
+static const int efd[NEVT] = { 20, 70, 24, -1, SIGUSR1, 26, 24, 30 };
+static const short eflags[NEVT] = { EV_READ | EV_PERSIST, EV_READ | EV_PERSIST, EV_WRITE | EV_PERSIST, EV_PERSIST, EV_SIGNAL | EV_PERSIST, EV_READ | EV_ET | EV_PERSIST, EV_CLOSED | EV_PERSIST, EV_READ | EV_PERSIST };
+#define NPRE 7                       /* events that can be toggled before the fork: R0..CL (EX and CL on epoll only) */
 
 static int BK, SIGFD, IS_EPOLL;
 static struct event_base *base;
@@ -80,10 +82,10 @@ static void check_registration(int kind, void *a, long n)
 	MC_COUNT("c11_registration_checks");
 	if (kind == 'e') c = bk_epoll_registrations(*(int *)a, r, 32);
 	for (unsigned k = 0; k < sizeof io / sizeof *io; k++) {
-		int e = io[k], fd = efd[e], have = -1, het = 0;
+		int e = io[k], fd = efd[e], have = -1, het = 0, hrd = 0, cl = (e == W0) && added[CL];
 		short want = added[e] ? (eflags[e] & (EV_READ | EV_WRITE)) : 0; int wet = added[e] && (eflags[e] & EV_ET);
 		if (kind == 'e') {
-			for (int i = 0; i < c; i++) if (r[i].fd == fd) { have = (r[i].events & EPOLLIN ? EV_READ : 0) | (r[i].events & EPOLLOUT ? EV_WRITE : 0); het = !!(r[i].events & EPOLLET); }
+			for (int i = 0; i < c; i++) if (r[i].fd == fd) { have = (r[i].events & EPOLLIN ? EV_READ : 0) | (r[i].events & EPOLLOUT ? EV_WRITE : 0); het = !!(r[i].events & EPOLLET); hrd = !!(r[i].events & EPOLLRDHUP); }
 		} else if (kind == 'p') {
 			struct pollfd *p = a;
 			for (long i = 0; i < n; i++) if (p[i].fd == fd) have = (p[i].events & POLLIN ? EV_READ : 0) | (p[i].events & POLLOUT ? EV_WRITE : 0);
@@ -94,9 +96,13 @@ static void check_registration(int kind, void *a, long n)
 			wet = 0;
 		}
 		if (want && have <= 0) FAIL(K("registration-missing"), "%s: %s is added on fd %d but the kernel-facing set has no entry for it", who, ename[e], fd);
+		else if (!want && cl && have < 0) FAIL(K("registration-missing"), "%s: CL (EV_CLOSED) is added on fd %d but the kernel-facing set has no entry for it", who, fd);
+		else if (!want && cl && have > 0) FAIL(K("registration-wrong"), "%s: only CL (EV_CLOSED) is added on fd %d, kernel-facing set also has %#x", who, fd, have);
+		else if (!want && cl) ;
 		else if (!want && have >= 0) FAIL(K("registration-stale"), "%s: %s is not added but fd %d is still in the kernel-facing set (%#x)", who, ename[e], fd, have);
 		else if (want && have != want) FAIL(K("registration-wrong"), "%s: %s on fd %d wants %#x, kernel-facing set has %#x", who, ename[e], fd, want, have);
 		else if (want && wet != het) FAIL(K("registration-et"), "%s: %s on fd %d: edge-triggered requested=%d registered=%d", who, ename[e], fd, wet, het);
+		if (kind == 'e' && e == W0 && have >= 0 && hrd != cl) FAIL(K("registration-closed"), "%s: fd %d: EV_CLOSED event added=%d, EPOLLRDHUP registered=%d (W0 added=%d)", who, fd, cl, hrd, added[W0]);
 	}
 }
 static void prewait(int kind, void *a, long n, int64_t t) { (void)t; check_registration(kind, a, n); }
@@ -177,8 +183,8 @@ static void continuation_b(void)
 	for (int e = 0; e < NPRE; e++) if (added[e]) xdel(e);
 	raise(SIGUSR1);                       /* no event: goes to the application's handler in this process */
 	one_loop();
-	for (int e = 0; e < NPRE - 1; e++) xadd(e);      /* R0 R1 W0 T0 S0 */
-	if (IS_EPOLL) xadd(EX);
+	for (int e = 0; e < NPRE - 2; e++) xadd(e);      /* R0 R1 W0 T0 S0 */
+	if (IS_EPOLL) { xadd(EX); xadd(CL); }
 	one_loop();
 	vclock_advance(5000); raise(SIGUSR1); event_active(&ev[R1], EV_READ, 1);
 	one_loop();
@@ -299,7 +305,7 @@ static void body(void)
 	if (!base) return;
 	if (open_fds() < 0) { mc_fail("harness:open-fds", "%s", strerror(errno)); return; }
 	for (int e = 0; e < NEVT; e++) event_assign(&ev[e], base, efd[e], eflags[e], cb, (void *)(intptr_t)e);
-	const int npre = IS_EPOLL ? NPRE : NPRE - 1, n_ops = npre + 3;
+	const int npre = IS_EPOLL ? NPRE : NPRE - 2, n_ops = npre + 3;
 	for (int step = 0; step < D; step++) {
 		int op = mc_choose(n_ops + 1, 0, "pre-op");
 		if (!op) break;
